@@ -33,10 +33,23 @@ func TestMain(m *testing.M) {
 
 type verdict struct{ sig, msg string }
 
+// guard runs f, turning a panic into a value. A call that does not come back at all (a parser looping for ever on its
+// input) is reported the same way after callDeadline: the goroutine cannot be stopped, but the verdict is a violation
+// ("wedge") instead of a check that times out inconclusively.
+const callDeadline = 30 * time.Second
+
 func guard(f func()) (p interface{}) {
-	defer func() { p = recover() }()
-	f()
-	return nil
+	done := make(chan interface{}, 1)
+	go func() {
+		defer func() { done <- recover() }()
+		f()
+	}()
+	select {
+	case p = <-done:
+		return p
+	case <-time.After(callDeadline):
+		return fmt.Sprintf("NEVER RETURNS: the call is still running after %v (it spins or blocks for ever on this input)", callDeadline)
+	}
 }
 
 // ---- decoder on arbitrary bytes
